@@ -8,12 +8,17 @@ Domain : engine-like write cycles (`cycle` = tick, read_batch of all inputs, wri
 Oracle : observed at the fake hardware.
          (i)  every physical write (r, v) reaching the fake hardware carries the value most recently commanded for r
               at that moment (a value the decorator rejected with an exception is tolerated as well)
-                 stale-buffered-write   v is an older value that was buffered while the hardware was unreachable
-                 wrong-write            anything else
+                 stale-buffered-write:<where>   v is an older value that was buffered while the hardware was
+                                        unreachable; where = register-not-rewritten (the call's own write skipped the
+                                        register) | after-own-write | before-own-write
+                 stale-write:old-value:* v is an older commanded value that had reached the hardware before
+                 wrong-write:*          v was never commanded for r
          (ii) after every full cycle that ends in state OK, raised nothing and saw no physical write failure:
               fake memory[r] == commanded[r] for every output register (floats: math.isclose default tolerance,
               which the repo's unit test documents for only_write_modified_values)
-                 lost-write:<kind>      kind = nonnumeric->float | after-device-reset | <type>-><type>
+                 lost-write:<kind>      kind = nonnumeric->float (float commanded, register still holds a str/None)
+                                        | after-device-reset | after-unnoticed-flush-failure (volatile device, the
+                                        decorator swallowed the failure of its own buffer flush) | <type>-><type>
               registers whose content was destroyed by a stale write already reported under (i) are skipped and
               counted (class excluded_known:stale-buffered-write) so that one root cause yields one signature.
 """
@@ -50,12 +55,9 @@ ASSUMPTIONS = [
     "the Both register Z is never changed from the device side (set_input is restricted to pure inputs)",
 ]
 TIERS = {
-    "quick": {"per_shard": 1250, "max_ops": 40, "budget_s": 100},
-    "thorough": {"per_shard": 31250, "max_ops": 120, "budget_s": 1500},
+    "quick": {"per_shard": 1250, "max_ops": 40, "budget_s": 170},
+    "thorough": {"per_shard": 31250, "max_ops": 120, "budget_s": 840},
 }
-
-_MISSING = object()
-
 
 def _same(a, b) -> bool:
     if H._is_num(a) and H._is_num(b):
@@ -104,8 +106,7 @@ def judge(case, steps):
         if rejected:
             labels.add("rejected-write")
         wrote = [e for e in st_.ev if e[0] == "w"]
-        fail_idx = [j for j, e in enumerate(st_.ev) if e[0] == "wfail"]
-        failed = bool(fail_idx)
+        failed = any(e[0] == "wfail" for e in st_.ev)
         if failed and volatile:
             labels.add("device-reset")
         if st_.pre != "OK":
@@ -138,9 +139,13 @@ def judge(case, steps):
                 continue
             older = [h for h in history[r] if _same(h[0], v)]
             if any(h[1] for h in older):
+                # where did the stale value land relative to the call's own write of that register?
+                own = [i for i, x in enumerate(st_.ev) if x[0] == "w" and x[1] == r and i != j
+                       and not (x[3] == "single" and (st_.kind == "write_batch" or i != first_io))]
+                how = "register-not-rewritten" if not own else ("after-own-write" if min(own) < j else "before-own-write")
                 labels.add("stale-buffered-write")
                 tainted[r] = "%s wrote %s=%r" % (st_.brief(), r, v)
-                V("stale-buffered-write",
+                V("stale-buffered-write:" + how,
                   "%s (state %s->%s, only_write_modified_values=%s): the hardware received %s=%r, a value buffered during "
                   "an earlier outage, although %r was commanded since (register held %r before)"
                   % (st_.brief(), st_.pre, st_.post, case["cfg"]["omv"], r, v, commanded[r], mem_before.get(r)))
